@@ -37,7 +37,7 @@ CHECKS.update({
    ref='6/C01'),
  'C02': dict(level='other', engine='S-exp/bv',
    technique='symbolic execution of rustc MIR in the exponent domain with bit-vector scalars, z3 QF_BV; inductive steps at loop-head cut points for wNAF',
-   text='mul_assign, affine mul (mul_bits), precomp_3+mul_precomp_3, precomp_256+mul_precomp_256 for G1 and G2 are executed from MIR with all 256 scalar bits symbolic; z3 shows result exponent = k. wnaf_form (real FrRepr limb code) by one inductive step of the loop body for every window 2..=22 (exact halving, digit shape, bound, ranking, no panic), wnaf_exp and wnaf_table by inductive steps with a symbolic table, recommendations in 2..=22 for all inputs.',
+   text='mul_assign, affine mul (mul_bits), precomp_3+mul_precomp_3, precomp_256+mul_precomp_256 for G1 and G2 are executed from MIR with all 256 scalar bits symbolic; z3 shows result exponent = k. wnaf_form (real FrRepr limb code) by one inductive step of the loop body for every window 2..=22 (exact halving, digit shape, bound, ranking, no panic), wnaf_exp and wnaf_table by inductive steps with a symbolic table, recommendations in 2..=22 for all inputs. Every path is additionally run natively on special bases (identity, generator, subgroup point, non-member) and structured scalars against the reference curve arithmetic (replay target; supplementary).',
    note='Group operations assumed to act as an abelian group (C01). wnaf_table executed completely for windows <= 8, by induction step for all; Wnaf context: buffers are truncated at entry of wnaf_table/wnaf_form (checked from junk state).',
    ref='6/C02'),
  'C10': dict(level='other', engine='S-exp/bv',
@@ -68,17 +68,17 @@ CHECKS.update({
    ref='6/C04'),
  'C05': dict(level='model_checking', engine='K-bits',
    technique='Kani/CBMC bounded model checking of the real encoders/decoders with all coordinate limbs and bytes symbolic against an independent byte-level encoder',
-   text='from_affine / into_compressed / into_uncompressed for G1 and G2: bytes equal an independent big-endian ZCash-format encoder (c1 before c0, flag bits, sort flag iff y > -y in the lexicographic order), lengths 48/96/96/192, decode(encode(P)) = P, and for every byte string the decoders accept, re-encoding reproduces the bytes (injective, non-malleable).',
+   text='from_affine / into_compressed / into_uncompressed for G1 and G2: bytes equal an independent big-endian ZCash-format encoder (c1 before c0, flag bits, sort flag iff y > -y in the lexicographic order), lengths 48/96/96/192, decode(encode(P)) = P, for every point incl. the identity in any affine representation (infinity flag with arbitrary residual coordinates), and for every byte string the decoders accept, re-encoding reproduces the bytes (injective, non-malleable).',
    note='Same stubs as C04; y != 0 assumed (no 2-torsion). Ord for Fq2 and negate are the real code.',
    ref='6/C05'),
  'C06': dict(level='other', engine='S-euf + native KAT',
-   technique='EUF symbolic execution of the HashToCurve blanket impl from MIR decided by z3; RFC 9380 known-answer vectors replayed natively',
-   text='hash_to_curve(msg,dst) = map2_to_curve(u0,u1) with (u0,u1) = hash_to_field(msg,dst,2) and encode_to_curve = map_to_curve(hash_to_field(msg,dst,1)[0]), exactly one call each, nothing else read, for G1 and G2. Four RFC 9380 appendix J vectors (G1 RO x2, G1 NU, G2 RO) are reproduced by the real SHA-256 code in dev and release builds.',
+   technique='EUF symbolic execution from MIR of the HashToCurve blanket impl and of the generic expanders / hash_to_field with the hash uninterpreted, decided by z3, failing obligations replayed natively; RFC 9380 known-answer vectors and an end-to-end differential hash_to_curve = map(hashlib hash_to_field)',
+   text='hash_to_curve(msg,dst) = map2_to_curve(u0,u1) with (u0,u1) = hash_to_field(msg,dst,2) and encode_to_curve = map_to_curve(hash_to_field(msg,dst,1)[0]), exactly one call each, nothing else read, for G1 and G2. The hashing front end is decided here too (same obligations as C13: expand_message_xmd / _xof and hash_to_field equal RFC 9380 5.2/5.3 for every message / tag byte and every hash on a boundary grid incl. 255-byte tags). Four RFC 9380 appendix J vectors are reproduced in dev and release builds, and hash_to_curve / encode_to_curve of the native SHA-256, SHA-512 and SHAKE128 suites equal the native map applied to field elements computed with hashlib.',
    note='The RFC-level claim is the conjunction C13 and C14 and C15 and C16 and C17; the vectors pin constants and sign conventions end to end.',
    ref='6/C06'),
  'C07': dict(level='other', engine='S-euf/exp',
    technique='EUF / exponent-domain symbolic execution from MIR with z3; exact-integer ground facts',
-   text='in_subgroup = is_on_curve && [r]P == O (curve test first), is_on_curve <=> curve equation, subgroup test multiplies by exactly r, scale_by_cofactor multiplies by exactly h1 / h2 with h*r = #E(Fq) resp. the sextic-twist order recomputed from the trace, random() returns only cofactor-scaled non-identity points, generator literals on curve with order r.',
+   text='in_subgroup = is_on_curve && [r]P == O, is_on_curve <=> curve equation, subgroup test multiplies by exactly r, scale_by_cofactor multiplies by exactly h1 / h2 with h*r = #E(Fq) resp. the sextic-twist order recomputed from the trace, random() returns only cofactor-scaled non-identity points, generator literals on curve with order r. The four checked decoders (MIR, unchecked decoder / is_on_curve / in_subgroup uninterpreted, all encoding bytes symbolic) return Ok exactly when the unchecked decoder succeeded and the point passed the membership predicate; encodings of non-members are replayed through the native decoders.',
    note='Partial: closure of the whole safe API is an induction over C01/C02/C04/C10/C14/C17/C19 written in DESIGN.md, not a solver query; group structure Z/h x Z/r with gcd(h,r)=1 is used.',
    ref='6/C07'),
  'C08': dict(level='other', engine='K-bits + S-lia',
@@ -98,12 +98,12 @@ CHECKS.update({
    ref='6/C13'),
  'C18': dict(level='other', engine='K-bits + S-euf',
    technique='Kani/CBMC on sgn0 / ordering / negate_if for all canonical values; ring-domain conformance of Fq2::sqrt to Alg. 9 with pow and Frobenius uninterpreted; z3',
-   text='Fq::sgn0 = parity, Fq2::sgn0 = parity of the first non-zero coefficient, negate_if, xor table, Ord for Fq = integer order, Ord for Fq2 lexicographic with c1 most significant, exactly one of y,-y larger and parities differ. Fq2::sqrt: exponent literals (q-3)/4 and (q-1)/2, a0 = alpha^q alpha, None iff a0 = -1, alpha = -1 special case multiplies by u, else by (1+alpha)^((q-1)/2), zero to zero; legendre = legendre_Fq(norm), norm = c0^2+c1^2.',
-   note='Partial: correctness (not conformance) of Alg. 9 and of the derive-generated Fq / Fr sqrt and legendre for all inputs is outside the claim (pow loops over 255/381-bit fields); their parameters are C08 ground facts.',
+   text='Fq::sgn0 = parity, Fq2::sgn0 = parity of the first non-zero coefficient, negate_if, xor table, Ord for Fq = integer order, Ord for Fq2 lexicographic with c1 most significant, exactly one of y,-y larger and parities differ. Fq2::sqrt: exponent literals (q-3)/4 and (q-1)/2, a0 = alpha^q alpha, None iff a0 = -1, alpha = -1 special case multiplies by u, else by (1+alpha)^((q-1)/2), zero to zero; legendre = legendre_Fq(norm), norm = c0^2+c1^2. The native Fq2::sqrt is compared with Euler's criterion on branch-class inputs incl. one constructed input per special value of alpha = a^((q-1)/2).',
+   note='Shape facts (which exponents / constants the code uses) make the check answer exit 2, never VIOLATION, when the algorithm is replaced. Partial: correctness (not conformance) of Alg. 9 and of the derive-generated Fq / Fr sqrt and legendre for all inputs is outside the claim (pow loops over 255/381-bit fields); their parameters are C08 ground facts.',
    ref='6/C18'),
  'C19': dict(level='model_checking', engine='K-bits',
    technique='Kani/CBMC bounded model checking of the real SerDes code with decoder/encoder oracles, stream contents and flag symbolic, lengths on a boundary grid',
-   text='deserialize for G1Affine, G2Affine, G1, Fr, Fq12: Err on truncated input, on a flag contradicting the data, on non-reduced field values and whenever the decoder oracle rejects; consumes exactly 48/96/192/32/576 bytes on success; the decoder sees exactly the stream bytes; serialize writes exactly the encoder bytes; Fq12 coefficient order c0.c0.c0 ... c1.c2.c1; Fr round trip.',
+   text='deserialize for G1Affine, G2Affine, G1, G2, Fr, Fq12 (lengths incl. truncation at every kind of boundary: 0, one short, exact, one extra, coefficient boundaries of Fq12): the CHECKED decoder is called (unchecked ones carry their own marker), Err on truncated input, on a flag contradicting the data, on non-reduced field values and whenever the decoder oracle rejects; consumes exactly 48/96/192/32/576 bytes on success; the decoder sees exactly the stream bytes; serialize writes exactly the encoder bytes; Fq12 coefficient order c0.c0.c0 ... c1.c2.c1; Fr round trip.',
    note='Concrete stream lengths from the stated grid; decoders/encoders themselves are C04/C05; G2 projective shares the code shape of G1 projective.',
    ref='6/C19'),
 })
